@@ -11,7 +11,7 @@ from ..front import AnalysisError
 from ..harness import (Explorer, make_belief_base, make_epistemic_state, make_query, A, B, QUERY, material, verification,
                        falsification, fn_label, decided, view, KEYS_D, canon_items, canon_item, flat, show_items, each_item,
                        summary_consistency, P_value, PVAR, layer_fam, LEN_P, LAST, K, returned_bool, truth_rows, eval_pred,
-                       pred_atoms)
+                       pred_atoms, value_on_path, pred_on_path)
 from ..merge import case_guard
 from . import wrappers
 from .sysz import not_falsified
@@ -302,116 +302,192 @@ def accept_decision(rep, ex: Explorer):
     rep.floor("ACCEPT.decision rows", n, 3)
 
 
+def _min_atoms(d):
+    """The set of atoms a (possibly nested) minimum ranges over; None when the value is not a pure minimum of atoms."""
+    if isinstance(d, LinV):
+        d = ("lin", d.lin)
+    if isinstance(d, tuple) and d[:1] == ("one",) and len(d) == 2:
+        return _min_atoms(d[1])
+    if isinstance(d, tuple) and d[:1] == ("lin",):
+        terms, c = d[1]
+        if c != 0 or len(terms) != 1 or terms[0][1] != 1:
+            return None
+        return _min_atoms(terms[0][0])
+    if isinstance(d, tuple) and d[:1] == ("min",):
+        out = set()
+        for o in d[1]:
+            r = _min_atoms(o)
+            if r is None:
+                return None
+            out |= r
+        return out
+    if isinstance(d, tuple) and d[:1] == ("r",):
+        return {d}
+    return None
+
+
+def _lin_eval(d, env):
+    """Value of a linear term (possibly over nested min / max) under an assignment of its atoms."""
+    if isinstance(d, LinV):
+        d = ("lin", d.lin)
+    if isinstance(d, tuple) and d[:1] == ("one",) and len(d) == 2:
+        return _lin_eval(d[1], env)
+    if isinstance(d, tuple) and d[:1] == ("c",) and len(d) == 2:
+        return d[1]
+    if isinstance(d, tuple) and d[:1] == ("lin",):
+        terms, c = d[1]
+        return c + sum(k * _lin_eval(t, env) for t, k in terms)
+    if isinstance(d, tuple) and d[:1] in (("min",), ("max",)):
+        vals = [_lin_eval(o, env) for o in d[1]]
+        return min(vals) if d[0] == "min" else max(vals)
+    if d in env:
+        return env[d]
+    raise AnalysisError(f"cannot evaluate {F.show_desc(d)[:80]} under an assignment of the ranks")
+
+
+def _decisions_hold(decisions, env):
+    for k, v in decisions:
+        if k[0] == "cmp" and k[1] in ("<", "==") and isinstance(v, bool):
+            a, b = _lin_eval(k[2], env), _lin_eval(k[3], env)
+            if ((a < b) if k[1] == "<" else (a == b)) != v:
+                return False
+        elif k[0] == "nonzero" and isinstance(v, bool):
+            if (_lin_eval(("lin", k[1]), env) != 0) != v:
+                return False
+        else:
+            raise AnalysisError(f"decision {show_pred(k)[:80]} is not a comparison of ranks")
+    return True
+
+
 def marg_bits(rep, ex: Explorer):
-    """MARG.bits on marginalize."""
+    """MARG.bits on marginalize, decided by evaluating it: concrete signatures of 1..3 (thorough: 4) atoms with all their
+    worlds, every subset of eliminated atoms (also none, all, and a name that is not in the signature), the rank of every
+    world a *symbolic* integer r(w) - total rankings and rankings with unranked worlds.  The ranks handed to the new
+    ranking object must map every reduced world to min{ r(w) : w ranked, w restricted to the kept positions = it } (a
+    reduced world without ranked extension absent or None), and the new signature must be the kept atoms in order."""
+    import itertools
+
+    from .. import depth as _depth
+
     qual = f"{PO}.marginalize"
     site = fn_label(ex.prog, qual)
-    ELIM = ("elim",)
-
-    def setup(I):
-        return [_obj(I), ElemV(ELIM, "coll", "str")], {}
-
-    def init_custom(I, fi, args, kwargs, node):
-        I.log("init_custom", node, args=tuple(args[1:] if args and isinstance(args[0], type(args[0])) else args), views=tuple(view(I.state, a) for a in args))
-        return Sym(("custom-ocf",))
-
-    paths = ex.run(qual, setup, summaries=_summ({f"{PO}.init_custom": init_custom}), key="marg")
     n = 0
-    for p in paths:
-        if p.outcome[0] != "return":
-            continue
-        loops = [ev for ev, Q in iter_events(p.events) if ev.kind == "loop" and not Q and ev.fam == WORLDS]
-        if not loops:
-            raise AnalysisError(f"{site}: no loop over the worlds")
-        lp = loops[0]
-        wv = lp.evar
-        rng = ("members", ("range", F.lin_const(0), F.lin_term(("len", wv))))
-        for case in lp.cases:
-            d = dict(case.guard)
-            sets = [ev for ev, Q in iter_events(case.events) if ev.kind == "dict.set"]
-            if not sets and case.sig[0] == "next" and d.get(("isnone", ("storedrank", wv))) is False:
-                # a ranked world that leaves the marginal untouched: only right when its reduced world already holds a rank
-                # that is not larger (an explicit comparison said so)
-                pres = [v for k, v in d.items() if k[0] == "in" and isinstance(k[2], tuple) and k[2][0] == "dict"]
-                unset_ = [v for k, v in d.items() if k[0] == "isnone" and isinstance(k[1], tuple) and k[1][:1] == ("dictitem",)]
-                stored_ = ("storedrank", wv)
-                kept_smaller = False
-                for k, v in d.items():
-                    if k[0] == "cmp" and k[1] == "<" and isinstance(v, bool):
-                        a_, b_ = k[2], k[3]
-                        if a_ == stored_ and isinstance(b_, tuple) and b_[:1] == ("dictitem",):
-                            kept_smaller = (v is False)      # not (new < old)
-                        elif b_ == stored_ and isinstance(a_, tuple) and a_[:1] == ("dictitem",):
-                            kept_smaller = kept_smaller or v is True   # old < new
-                first = (not pres or pres[-1] is False) or (unset_ and unset_[-1] is True)
+    names = ["a", "b", "c", "d"]
+    sizes = (1, 2, 3, 4) if _depth.thorough() else (1, 2, 3)
+    for size in sizes:
+        sig = names[:size]
+        worlds = ["".join(t) for t in itertools.product("01", repeat=size)]
+        for pattern in ("total", "partial", "unranked"):
+            unranked = set() if pattern == "total" else ({w for k, w in enumerate(worlds) if k % 3 == 1} if pattern == "partial" else set(worlds))
+            if pattern == "partial" and not unranked:
+                continue
+            elims = [list(c) for r in range(size + 1) for c in itertools.combinations(sig, r)]
+            elims.append([sig[-1], "zz"])
+            if size >= 2:
+                elims.append([sig[1], sig[0]])  # not in signature order
+            if pattern == "unranked":
+                elims = elims[:2]
+            for elim in elims:
+                got = []
+
+                def setup(I, sig=sig, worlds=worlds, unranked=unranked, elim=elim):
+                    ranks = I.alloc(HDict(entries={w: (Const(None) if w in unranked else LinV(F.lin_term(("r", w)))) for w in worlds}))
+                    o = I.alloc(HObj(CUS, {"ranks": ranks, "signature": I.alloc(HList([("one", Const(x)) for x in sig])), "conditionals": Const(None),
+                                           "ranking_system": Const("custom"), "_metadata": I.alloc(HDict()), "_state": I.alloc(HDict())}))
+                    return [o, I.alloc(HList([("one", Const(x)) for x in elim]))], {}
+
+                def init_custom(I, fi, args, kwargs, node, got=got):
+                    vals = [a for a in list(args) + list(kwargs.values())]
+                    rk = kwargs.get("ranks")
+                    if rk is None:
+                        rk = next((a for a in vals if isinstance(a, Ref) and isinstance(I.deref(a), HDict) and (I.deref(a).entries or I.deref(a).each or True) and a is not kwargs.get("metadata")), None)
+                    sg = kwargs.get("signature")
+                    if sg is None:
+                        sg = next((a for a in vals if isinstance(a, Ref) and isinstance(I.deref(a), HList)), None)
+                    rd = I.deref(rk) if isinstance(rk, Ref) else None
+                    res = (dict(rd.entries) if isinstance(rd, HDict) and not rd.each and not rd.sym else None, view(I.state, sg) if sg is not None else None, node.lineno)
+                    got.append(res)
+                    I.log("init_custom", node, result=res)
+                    return Sym(("custom-ocf",))
+
+                paths = ex.run(qual, setup, summaries=_summ({f"{PO}.init_custom": init_custom}), key=f"marg-{size}-{pattern}-{'.'.join(elim)}")
+                rets = [p for p in paths if p.outcome[0] == "return"]
+                slot = f"|Σ|={size}, {pattern} ranking, eliminate {elim}"
+                if len(paths) > 1 and len(rets) == len(paths) == len(got):
+                    # the minimum written with explicit comparisons of ranks: one path per outcome of the comparisons.  Every
+                    # assignment of small values to the ranks selects its path; that path's result is compared with the minimum
+                    atoms = [("r", w) for w in worlds if w not in unranked]
+                    if len(atoms) > 8:
+                        continue
+                    keep = [k for k, x in enumerate(sig) if x not in elim]
+                    bad = None
+                    n_assign = 0
+                    if len(atoms) <= 5:
+                        assigns = itertools.product((0, 1, 2), repeat=len(atoms))
+                    else:
+                        k_ = len(atoms)
+                        assigns = itertools.chain(itertools.product((0, 1), repeat=k_), (tuple((j + sh) % k_ for j in range(k_)) for sh in range(k_)),
+                                                  (tuple((sh - j) % k_ for j in range(k_)) for sh in range(k_)))
+                    for vals in assigns:
+                        env = dict(zip(atoms, vals))
+                        sel = [i for i, p in enumerate(paths) if _decisions_hold(p.decisions, env)]
+                        if len(sel) != 1:
+                            raise AnalysisError(f"{site}: {len(sel)} paths for one assignment of the ranks ({slot})")
+                        built = [ev.result for ev, Q in iter_events(paths[sel[0]].events) if ev.kind == "init_custom"]
+                        if len(built) != 1:
+                            raise AnalysisError(f"{site}: {len(built)} ranking objects built on one path ({slot})")
+                        ranks = built[0][0]
+                        if ranks is None:
+                            raise AnalysisError(f"{site}: the ranks handed to the new ranking object are not a concrete mapping ({slot})")
+                        want = {}
+                        for w in worlds:
+                            if w not in unranked:
+                                rw = "".join(w[k] for k in keep)
+                                want[rw] = min(want.get(rw, 99), env[("r", w)])
+                        have = {k: (_lin_eval(v, env) if not (isinstance(v, Const) and v.value is None) else None) for k, v in ranks.items()}
+                        have = {k: v for k, v in have.items() if v is not None}
+                        n_assign += 1
+                        if have != want:
+                            bad = (env, have, want)
+                            break
+                    n += 1
+                    rep.check(bad is None, "MARG.bits", site, slot, "every reduced world gets the least rank of its ranked extensions (bit i kept iff signature[i] is not eliminated)",
+                              extracted=(f"ranks {dict((k[1], v) for k, v in bad[0].items())} give {bad[1]}" if bad else f"min over the extensions under {n_assign} assignments of the ranks ({len(paths)} paths)"),
+                              required=(str(bad[2]) if bad else "min over the extensions of each reduced world"), function=site)
+                    continue
+                if len(paths) != 1 or len(rets) != 1 or len(got) != 1:
+                    if any(p.outcome[0] == "raise" for p in paths) and len(paths) == 1:
+                        rep.violation("MARG.bits", site, slot, "marginalising is defined for every ranking and every set of eliminated atoms", extracted=f"raises {paths[0].outcome[1].cls}", required="the marginal ranking", function=site)
+                        n += 1
+                        continue
+                    raise AnalysisError(f"{site}: evaluation on a concrete signature did not give one result ({len(paths)} paths, {len(got)} ranking objects built; {slot})")
+                ranks, sgv, line = got[0]
+                if ranks is None:
+                    raise AnalysisError(f"{site}: the ranks handed to the new ranking object are not a concrete mapping ({slot})")
+                keep = [k for k, x in enumerate(sig) if x not in elim]
+                want = {}
+                for w in worlds:
+                    if w in unranked:
+                        continue
+                    want.setdefault("".join(w[k] for k in keep), set()).add(("r", w))
+                bad = []
+                for rw in sorted(set(want) | {k for k in ranks if isinstance(k, str)} | {repr(k) for k in ranks if not isinstance(k, str)}):
+                    v = ranks.get(rw)
+                    exp = want.get(rw)
+                    if exp is None:
+                        if not (v is None or (isinstance(v, Const) and v.value is None)):
+                            bad.append(f"{rw!r} -> {v!r} (no ranked extension)")
+                        continue
+                    atoms = _min_atoms(v) if v is not None else None
+                    if atoms != exp:
+                        bad.append(f"{rw!r} -> {v!r}, required min{sorted(x[1] for x in exp)}")
                 n += 1
-                rep.check(kept_smaller and not first, "MARG.bits", site, "ranked world without effect" + (" (first extension)" if first else " (collision)"),
-                          "every ranked world takes part in the minimum of its reduced world: it is stored when it is the first extension, and on a collision unless the stored rank is already not larger",
-                          extracted="the world's rank is dropped" + ("" if kept_smaller else " without comparing it with the stored rank"), required="stored / compared", function=site)
-            for ev in sets:
-                n += 1
-                key = ev.key
-                okk = False
-                det = repr(key)[:200]
-                if isinstance(key, Sym) and key.label[:1] == ("join",) and key.label[1] == "":
-                    ld = key.label[2]
-                    if ld[0] == "list" and len(ld[1]) == 1 and ld[1][0][0] == "each":
-                        _, b, fam, g, val = ld[1][0]
-                        keep = ("not", ("in", ("elem", ("at", SIG, ("lin", F.lin_term(("elem", b, "pos")))), "str"), ELIM))
-                        okk = fam == rng and g == keep and val == ("item", ("elem", wv, "key"), ("elem", b, "pos"))
-                        det = f"bits {F.show_desc(val)} for positions with {show_pred(g)}"
-                rep.check(okk, "MARG.bits", f"{site}:{ev.node.lineno}", "kept bits", "bit i of a world is kept iff signature[i] is not eliminated (same i)", extracted=det, required="world[i] for i with signature[i] ∉ eliminated", function=site)
-                # value: first time the world's rank, on collision the minimum
-                present = None
-                unset = None
-                for k, v in d.items():
-                    if k[0] == "in" and isinstance(k[2], tuple) and k[2][0] == "dict":
-                        present = v
-                    if k[0] == "isnone" and isinstance(k[1], tuple) and k[1][:1] == ("dictitem",):
-                        unset = v
-                stored = ("storedrank", wv)
-                val = ev.value
-                undefined = d.get(("isnone", stored))
-                rep.check(undefined is False, "MARG.bits", f"{site}:{ev.node.lineno}", "only ranked worlds contribute", "a world contributes to its reduced world only when its own rank is defined", extracted=f"rank undefined: {undefined}", required="rank is not None", function=site)
-                if present is False or present is None or unset is True:
-                    okv = isinstance(val, Sym) and val.label == stored
-                    rep.check(okv, "MARG.bits", f"{site}:{ev.node.lineno}", "first extension", "the first extension of a reduced world contributes its own rank", extracted=repr(val), required="rank of the world", function=site)
-                else:
-                    okv = False
-                    if isinstance(val, LinV) and len(val.lin[0]) == 1 and val.lin[1] == 0 and val.lin[0][0][1] == 1 and isinstance(val.lin[0][0][0], tuple) and val.lin[0][0][0][0] == "min":
-                        ops = val.lin[0][0][0][1]
-                        # the two operands: the world's own rank and what the reduced world holds so far
-                        okv = len(ops) == 2 and stored in ops and any(isinstance(o_, tuple) and o_[:1] == ("dictitem",) and (len(o_) < 3 or o_[2] == desc(ev.key)) for o_ in ops)
-                    if not okv and isinstance(val, Sym):
-                        # the minimum written as an explicit comparison: the stored value is the smaller of the two on this path
-                        for k, v in d.items():
-                            if k[0] == "cmp" and k[1] == "<" and isinstance(v, bool):
-                                a_, b_ = k[2], k[3]
-                                a_new, b_new = a_ == stored, b_ == stored
-                                a_old = isinstance(a_, tuple) and a_[:1] == ("dictitem",)
-                                b_old = isinstance(b_, tuple) and b_[:1] == ("dictitem",)
-                                is_new = val.label == stored
-                                is_old = isinstance(val.label, tuple) and val.label[:1] == ("dictitem",)
-                                if a_new and b_old:      # new < old decided v
-                                    okv = (is_new and v) or (is_old and not v)
-                                elif a_old and b_new:    # old < new decided v
-                                    okv = (is_old and v) or (is_new and not v)
-                    rep.check(okv, "MARG.bits", f"{site}:{ev.node.lineno}", "collision", "further extensions keep the minimum of the stored and the new rank", extracted=repr(val)[:160], required="min(stored, rank of the world)", function=site)
-        for ev, Q in iter_events(p.events):
-            if ev.kind == "init_custom":
-                vws = ev.views
-                sigv = [v for v in vws if isinstance(v, tuple) and v[0] == "list" and len(v[1]) == 1 and v[1][0][0] == "each" and v[1][0][2] == ("members", SIG)]
-                ok = False
-                if sigv:
-                    _, b, fam, g, val = sigv[0][1][0]
-                    ok = g == ("not", ("in", ("elem", b, "str"), ELIM)) and isinstance(val, ElemV) and val.var == b
-                rep.check(ok, "MARG.bits", f"{site}:{ev.node.lineno}", "new signature", "the new signature is the old one without the eliminated atoms, in the same order", extracted=repr(sigv[0][1][0][3]) if sigv else "not found", required="[s for s in signature if s not in eliminated]", function=site)
-                # the ranks handed to the new ranking object are the ones computed here
-                built = {e2.obj.oid for e2, Q2 in iter_events(p.events) if e2.kind == "dict.set" and Q2 and Q2[0][0].fam == WORLDS and isinstance(e2.obj, Ref)}
-                first = ev.args[0] if ev.args else None
-                rep.check(isinstance(first, Ref) and first.oid in built, "MARG.bits", f"{site}:{ev.node.lineno}", "marginal ranks handed on", "the new ranking object is built from the marginal ranks computed here",
-                          extracted=repr(first), required="the computed ranks", function=site)
-    rep.floor("MARG.bits stores", n, 2)
+                rep.check(not bad, "MARG.bits", f"{site}:{line}", slot, "every reduced world gets the least rank of its ranked extensions (bit i kept iff signature[i] is not eliminated)",
+                          extracted="; ".join(bad)[:300] or "min over the extensions", required="min over the extensions of each reduced world", function=site)
+                wsig = ("list", tuple(("one", Const(sig[k])) for k in keep))
+                rep.check(sgv == wsig, "MARG.bits", f"{site}:{line}", slot + " / signature", "the new signature is the old one without the eliminated atoms, in the same order",
+                          extracted=repr(sgv)[:160], required=str([sig[k] for k in keep]), function=site)
+    rep.floor("MARG.bits evaluations", n, 20)
 
 
 def cond_filter(rep, ex: Explorer):
@@ -437,150 +513,203 @@ def cond_filter(rep, ex: Explorer):
                 want = canon_items(world_items(wv) + [("f", PHI)])
                 rep.check(got == want, "COND.filter", f"{site}:{ev.node.lineno}", "satisfaction test", "a world is kept iff world literals ∧ condition is satisfiable",
                           extracted=show_items(flat(ev.frames)), required=show_items(world_items(wv) + [("f", PHI)]), function=site)
-            vw = view(p.state, p.outcome[1])
-            n += 1
-            ok = False
-            det = repr(vw)[:200]
-            if fn == "filter_worlds_by_conditionalization":
-                if isinstance(vw, tuple) and vw[0] == "list" and len(vw[1]) == 1 and vw[1][0][0] == "each":
-                    _, b, fam, g, val = vw[1][0]
-                    ok = fam == WORLDS and g[0] == "sat" and isinstance(val, ElemV) and val.var == b
-                    det = f"worlds with {show_pred(g)}"
-                rep.check(ok, "COND.filter", site, "kept worlds", "exactly the worlds satisfying the condition are returned", extracted=det, required="[w for w in worlds if SAT(w ∧ φ)]", function=site)
-            else:
-                rv = p.outcome[1]
-                d = p.state.heap.get(rv.oid) if isinstance(rv, Ref) else None
-                if isinstance(d, HDict) and len(d.each) == 1 and not d.entries:
-                    _, b, fam, g, kt, vt = d.each[0]
-                    inner_ok = fam == WORLDS and g[0] == "sat" and isinstance(kt, ElemV) and kt.var == b
-                    if fn == "compute_conditionalization":
-                        val_ok = isinstance(vt, Sym) and vt.label == ("rank", ("elem", b, "key"))
+            n += 0
+    # ---- the results, by evaluation on concrete signatures: all worlds of 1..2 (thorough: 3) atoms, the stored rank of a
+    # world a symbolic integer, the literals of a world one opaque formula (WORLD.literals decides what they are), and the
+    # outcome of every satisfiability test free.  Whatever the tests answer, the result holds exactly the worlds whose test
+    # (world ∧ condition, nothing else) said yes, each with its own rank.
+    import itertools
+
+    from .. import depth as _depth
+
+    def lits_summary(I, fi, args, kwargs, node):
+        w = args[1] if len(args) > 1 else kwargs.get("bitvec")
+        if not (isinstance(w, Const) and isinstance(w.value, str)):
+            raise AnalysisError(f"{fn_label(ex.prog, PO + '.symbolize_bitvec')}: literals of a world that is not one of the ranking's worlds ({w!r})")
+        return I.alloc(HList([("one", FormulaV(("atom", ("worldlits", w.value), "v"), "pysmt"))]))
+
+    summ = _summ({f"{PO}.symbolize_bitvec": lits_summary})
+    for fn in ("filter_worlds_by_conditionalization", "compute_conditionalization", "conditionalize_existing_ranks"):
+        qual = f"{PO}.{fn}"
+        site = fn_label(ex.prog, qual)
+        for size in ((1, 2, 3) if _depth.thorough() else (1, 2)):
+            sig = ["a", "b", "c"][:size]
+            worlds = ["".join(t) for t in itertools.product("01", repeat=size)]
+            for pattern in ("total", "partial"):
+                unranked = set() if pattern == "total" else {w for k, w in enumerate(worlds) if k % 2 == 1}
+
+                def setup(I, sig=sig, worlds=worlds, unranked=unranked):
+                    ranks = I.alloc(HDict(entries={w: (Const(None) if w in unranked else LinV(F.lin_term(("r", w)))) for w in worlds}))
+                    o = I.alloc(HObj(CUS, {"ranks": ranks, "signature": I.alloc(HList([("one", Const(x)) for x in sig])), "conditionals": Const(None),
+                                           "ranking_system": Const("custom"), "_metadata": I.alloc(HDict()), "_state": I.alloc(HDict())}))
+                    return [o, FormulaV(PHI, "pysmt")], {}
+
+                paths = ex.run(qual, setup, summaries=summ, key=f"condv-{fn}-{size}-{pattern}")
+                seen_sets = set()
+                for p in paths:
+                    if p.outcome[0] != "return":
+                        raise AnalysisError(f"{site}: evaluation on a concrete ranking ends in {p.outcome[1]!r}")
+                    dec = dict(p.decisions)
+                    answers = {}
+                    consistent = True
+                    for ev, Q in iter_events(p.events):
+                        if ev.kind != "query":
+                            continue
+                        fr = [it for it in flat(ev.frames)]
+                        ws = [it[1][1][1] for it in fr if it[0] == "f" and isinstance(it[1], tuple) and it[1][:1] == ("atom",) and isinstance(it[1][1], tuple) and it[1][1][:1] == ("worldlits",)]
+                        rest = [it for it in fr if not (it[0] == "f" and isinstance(it[1], tuple) and it[1][:1] == ("atom",) and isinstance(it[1][1], tuple) and it[1][1][:1] == ("worldlits",))]
+                        if len(ws) != 1 or canon_items(rest) != canon_items([("f", PHI)]):
+                            continue  # not a test of one world against the condition: judged by the rule above
+                        a = dec.get(("sat", ev.qid))
+                        if a is None:
+                            continue
+                        if ws[0] in answers and answers[ws[0]] != a:
+                            consistent = False
+                        answers[ws[0]] = a
+                    if not consistent:
+                        continue  # the same test answered differently twice: not an execution
+                    kept = sorted(w for w, a in answers.items() if a)
+                    slot = f"|Σ|={size}, {pattern} ranking, tests say yes for {kept}"
+                    if (tuple(kept), tuple(sorted(answers))) in seen_sets:
+                        pass
+                    seen_sets.add((tuple(kept), tuple(sorted(answers))))
+                    rv = p.outcome[1]
+                    o = p.state.heap.get(rv.oid) if isinstance(rv, Ref) else None
+                    n += 1
+                    if fn == "filter_worlds_by_conditionalization":
+                        got = None
+                        if isinstance(o, HList) and all(sg[0] == "one" and isinstance(sg[1], Const) for sg in o.segs):
+                            got = [sg[1].value for sg in o.segs]
+                        if got is None:
+                            raise AnalysisError(f"{site}: the returned worlds are not concrete ({view(p.state, rv)!r})")
+                        okk = sorted(got) == kept
+                        # a world that was never tested cannot be decided to be kept or not
+                        rep.check(okk, "COND.filter", site, "kept worlds", "exactly the worlds satisfying the condition are returned", extracted=f"{slot}: returned {got}", required=f"{kept}", function=site)
                     else:
-                        val_ok = isinstance(vt, Sym) and vt.label == ("storedrank", b)
-                    ok = inner_ok and val_ok
-                    det = f"{F.show_desc(fam)} | {show_pred(g)} -> {vt!r}"
-                rep.check(ok, "COND.filter", site, "ranks of the kept worlds", "each kept world is mapped to its own rank", extracted=det, required="{w: rank(w) for kept w}", function=site)
-    rep.floor("COND.filter results", n, 3)
+                        if not (isinstance(o, HDict) and not o.each and not o.sym):
+                            raise AnalysisError(f"{site}: the returned mapping is not concrete ({view(p.state, rv)!r})")
+                        bad = []
+                        for w in sorted(set(kept) | {k for k in o.entries if isinstance(k, str)}):
+                            v = o.entries.get(w)
+                            if w not in kept:
+                                bad.append(f"{w} -> {v!r} (not kept)")
+                                continue
+                            if fn == "compute_conditionalization":
+                                okv = isinstance(v, Sym) and v.label == ("rank", ("c", w))
+                                req = f"rank_world({w})"
+                            else:
+                                okv = (isinstance(v, Const) and v.value is None) if w in unranked else (isinstance(v, LinV) and v.lin == F.lin_term(("r", w)))
+                                req = f"the stored rank of {w}"
+                            if not okv:
+                                bad.append(f"{w} -> {v!r}, required {req}")
+                        rep.check(not bad, "COND.filter", site, "ranks of the kept worlds", "each kept world is mapped to its own rank, and only kept worlds appear", extracted=f"{slot}: " + ("; ".join(bad)[:240] or "own ranks"), required="{w: rank(w) for kept w}", function=site)
+                if len(seen_sets) < 2 ** len(worlds):
+                    rep.violation("COND.filter", site, f"tests per world (|Σ|={size})", "every world of the ranking is tested against the condition", extracted=f"{len(seen_sets)} combinations of answers", required=f"{2 ** len(worlds)}", function=site)
+    rep.floor("COND.filter results", n, 60)
+
+
+def _concrete(state, v, depth=0):
+    """A concrete Python value for a fully concrete abstract value (lists, sets as frozensets, tuples, constants);
+    raises AnalysisError otherwise."""
+    if isinstance(v, Const):
+        return v.value
+    if isinstance(v, TupleV):
+        return tuple(_concrete(state, x, depth + 1) for x in v.items)
+    if isinstance(v, Ref) and depth < 6:
+        o = state.heap.get(v.oid)
+        if isinstance(o, HList) and all(sg[0] == "one" for sg in o.segs):
+            vals = [_concrete(state, sg[1], depth + 1) for sg in o.segs]
+            return frozenset(vals) if o.is_set else vals
+        if isinstance(o, HDict) and not o.each and not o.sym:
+            return {k: _concrete(state, x, depth + 1) for k, x in o.entries.items()}
+    raise AnalysisError(f"not a concrete value: {v!r}")
 
 
 def tpo_order(rep, ex: Explorer):
-    """TPO.order on ranks2tpo / tpo2ranks."""
+    """TPO.order on ranks2tpo / tpo2ranks, decided by evaluation.  ranks2tpo only compares ranks with each other, so the
+    rankings of a fixed set of worlds fall into finitely many order types: every assignment of {unranked, 0, 2, 5} to the
+    2 and 4 worlds of one and two atoms (thorough: a fixed sample over the 8 worlds of three atoms as well) is evaluated and
+    the returned layers compared with the groups of equally ranked worlds in ascending order.  tpo2ranks is evaluated on
+    concrete layerings (also with an empty layer and none at all) with an uninterpreted numbering function."""
+    import itertools
+
+    from .. import depth as _depth
+
     prog = ex.prog
-    # ranks2tpo: group by rank, layers ascending by rank
     qual = "inference.preocf.ranks2tpo"
     site = fn_label(prog, qual)
-
-    def setup(I):
-        b = I.fresh_var("w")
-        ranks = I.alloc(HDict(each=[("each", b, WORLDS, PTRUE, ElemV(b, "key"), Sym(("storedrank", b), "optint"))]))
-        return [ranks], {}
-
-    paths = ex.run(qual, setup, summaries=_summ(), key="r2t")
     n = 0
-    for p in paths:
-        if p.outcome[0] != "return":
-            continue
-        srt = [ev for ev, Q in iter_events(p.events) if ev.kind == "sorted"]
+    vals = (None, 0, 2, 5)
+    cases = []
+    for size in (1, 2):
+        worlds = ["".join(t) for t in itertools.product("01", repeat=size)]
+        for asg in itertools.product(vals, repeat=len(worlds)):
+            cases.append(dict(zip(worlds, asg)))
+    if _depth.thorough():
+        worlds = ["".join(t) for t in itertools.product("01", repeat=3)]
+        x = 12345
+        for _ in range(150):
+            asg = []
+            for _w in worlds:
+                x = (1103515245 * x + 12345) % (2 ** 31)
+                asg.append((None, 0, 1, 2, 5, 7)[(x >> 8) % 6])
+            cases.append(dict(zip(worlds, asg)))
+    bad = None
+    for ci, asg in enumerate(cases):
+        def setup(I, asg=asg):
+            return [I.alloc(HDict(entries={w: Const(v) for w, v in asg.items()}))], {}
+
+        paths = ex.run(qual, setup, summaries=_summ(), key=f"r2t-{ci}")
+        if len(paths) != 1:
+            raise AnalysisError(f"{site}: {len(paths)} paths on a concrete ranking {asg}")
+        p = paths[0]
+        want = [frozenset(w for w, r in asg.items() if r == v) for v in sorted({r for r in asg.values() if r is not None})]
         n += 1
-        asc = len(srt) == 1 and (srt[0].reverse is None or (isinstance(srt[0].reverse, Const) and not srt[0].reverse.value))
-        by_rank = False
-        if len(srt) == 1 and srt[0].key is None:
-            by_rank = True  # the sorted sequence itself is inspected below (keys of the grouping, or (rank, group) pairs)
-        elif len(srt) == 1 and srt[0].data.get("keyvals"):
-            # a key function: it must select the rank of the element (the first component of a (rank, group) pair, or the
-            # element itself when the ranks are what is sorted)
-            by_rank = all(kv == el or (isinstance(el, tuple) and el[:1] == ("tuple",) and len(el) >= 2 and kv == el[1]) for el, kv in srt[0].keyvals)
-        elif len(srt) == 1:
-            raise AnalysisError(f"{site}: layers are sorted by a key function the analysis cannot read")
-        ok = asc and by_rank
-        rep.check(ok, "TPO.order", site, "layer order", "layers are ordered by ascending rank", extracted=f"sorted(key={'none' if srt and srt[0].key is None else 'function'}, keyed by {srt[0].data.get('keyvals')!r}, reverse={srt[0].reverse!r})"[:200] if srt else "no sort", required="sorted by rank, ascending", function=site)
-        if srt:
-            sv = view(p.state, srt[0].src)
-            # the sorted thing: the keys of the group dict = ranks
-            rep.ok("TPO.order", site, "sorted quantity", "the groups are sorted by their rank (the keys of the grouping)", extracted=repr(sv)[:120])
-        # grouping: world added to the group of its own rank; None skipped
-        for ev, Q in iter_events(p.events):
-            if ev.kind == "list.append" and Q:
-                wv = Q[0][0].evar
-                d = {}
-                for lp, case in Q:
-                    d.update(dict(case.guard))
-                isnone = d.get(("isnone", ("storedrank", wv)))
-                rep.check(isnone is False, "TPO.order", f"{site}:{ev.node.lineno}", "undefined ranks skipped", "worlds without a rank are not placed in a layer", extracted=f"isnone={isnone}", required="rank is not None", function=site)
-        # grouping: every ranked world is added to the group stored under its own rank; a group is created only when missing
-        cases = {}
-        for ev, Q in iter_events(p.events):
-            if not Q or Q[0][0].fam != WORLDS:
-                continue
-            wv = Q[0][0].evar
-            d = {}
-            for lp, case in Q:
-                d.update(dict(case.guard))
-            if d.get(("isnone", ("storedrank", wv))) is not False:
-                continue
-            present = None
-            for k, v in d.items():
-                if k[0] == "in" and k[1] == ("storedrank", wv):
-                    present = v
-            c = cases.setdefault(present, {"added": 0, "created": 0, "wv": wv})
-            own = ("storedrank", wv)
-            if ev.kind in ("call.method", "elem.mutate") and ev.data.get("method") == "add" and ev.data.get("args") and isinstance(ev.args[0], ElemV) and ev.args[0].var == wv:
-                tgt = ev.obj
-                if isinstance(tgt, Sym) and isinstance(tgt.label, tuple) and tgt.label[:1] == ("dictitem",) and tgt.label[2] == own:
-                    c["added"] += 1
-            if ev.kind == "list.append" and isinstance(ev.value, ElemV) and ev.value.var == wv:
-                c["added"] += 1
-            if ev.kind == "dict.set" and isinstance(ev.key, Sym) and ev.key.label == own:
-                c["created"] += 1
-        for present, c in cases.items():
-            if present is None:
-                continue
-            rep.check(c["added"] == 1, "TPO.order", site, f"world placed (group {'exists' if present else 'missing'})", "a ranked world is added (once) to the group kept under its own rank", extracted=f"{c['added']} addition(s)", required="1", function=site)
-            rep.check(c["created"] == (0 if present else 1), "TPO.order", site, f"group creation (group {'exists' if present else 'missing'})", "a group is created exactly when the rank has none yet (an existing group is never replaced)",
-                      extracted=f"{c['created']} creation(s)", required="0" if present else "1", function=site)
-        if True not in cases or False not in cases:
-            rep.violation("TPO.order", site, "grouping", "worlds are grouped by rank: the group of a rank is looked up, created when missing, and the world added", extracted=f"cases {sorted(map(str, cases))}", required="both cases (group exists / missing)", function=site)
-    rep.floor("ranks2tpo paths", n, 1)
+        if p.outcome[0] != "return":
+            bad = bad or (asg, f"{p.outcome[0]} {p.outcome[1]!r}", want)
+            continue
+        got = _concrete(p.state, p.outcome[1])
+        if not isinstance(got, list):
+            raise AnalysisError(f"{site}: the result is not a list of layers: {got!r}")
+        layers = []
+        dup = False
+        for L in got:
+            if isinstance(L, (list, tuple)):
+                dup = dup or len(set(L)) != len(L)
+            layers.append(frozenset(L))
+        if layers != want or dup:
+            bad = bad or (asg, [sorted(L) for L in layers], want)
+    rep.check(bad is None, "TPO.order", site, "layers", "the layers are the groups of equally ranked worlds in ascending order of rank; worlds without a rank are in no layer",
+              extracted=(f"ranks {bad[0]} give {bad[1]}" if bad else f"as required on {n} rankings (all order types of 2 and 4 worlds)"), required=(str([sorted(L) for L in bad[2]]) if bad else "groups by rank, ascending"), function=site)
+    rep.floor("ranks2tpo evaluations", n, 200)
     # tpo2ranks: rank_function applied to the layer number, in order
     qual = "inference.preocf.tpo2ranks"
     site = fn_label(prog, qual)
-    LAY = ("members", ("layers",))
-
-    def setup_t(I):
-        b = I.fresh_var("L")
-        tpo = I.alloc(HList([("each", b, LAY, PTRUE, ElemV(b, "set"))]))
-        return [tpo, Sym("rankfn")], {}
-
-    paths = ex.run(qual, setup_t, summaries=_summ(), key="t2r")
+    tpos = [[], [["0"]], [["0", "1"]], [["0"], ["1"]], [["00"], ["01", "10"], ["11"]], [["00"], [], ["11", "01"]], [[], ["1"]], [["10"], ["00"], ["11"], ["01"]]]
     m = 0
-    for p in paths:
-        if p.outcome[0] != "return":
-            rep.violation("TPO.order", site, "outcome", "every total preorder is converted", extracted=f"{p.outcome[0]} {p.outcome[1]!r}"[:80], required="return", function=site)
-            continue
-        m += 1
-        d = p.state.heap.get(p.outcome[1].oid) if isinstance(p.outcome[1], Ref) else None
-        ok = False
-        det = repr(p.outcome[1])[:80]
-        if not isinstance(d, HDict):
-            raise AnalysisError(f"{site}: result is not a mapping the analysis can read: {det}")
-        det = f"{len(d.entries)} literal entries, groups: " + "; ".join(f"{e[4]!r} -> {e[5]!r} over {F.show_desc(e[2])}" for e in d.each)[:260]
-        if not d.entries and not d.sym and len(d.each) == 1:
-            _, wv, fam, g, key, val = d.each[0]
-            posd = None  # descriptor of "the position of the layer the world comes from"
-            if isinstance(fam, tuple) and fam[0] == "nested" and fam[3] == PTRUE and g == PTRUE:
-                lv = fam[1]
-                if fam[2] == LAY and fam[4] == ("members", lv):
-                    # for i, layer in enumerate(tpo): for world in layer
-                    posd = desc(LinV(F.lin_term(("pos", lv, LAY))))
-                elif fam[2] == ("members", ("range", F.lin_const(0), F.lin_term(("len", ("layers",))))) and fam[4] == ("members", ("at", ("layers",), ("lin", F.lin_term(("elem", lv, "pos"))))):
-                    # for i in range(len(tpo)): for world in tpo[i]
-                    posd = ("elem", lv, "pos")
-            if posd is None:
-                raise AnalysisError(f"{site}: iteration over the layers in a form the analysis does not read: {det}")
-            ok = isinstance(key, ElemV) and key.var == wv and isinstance(val, Sym) and val.label == ("call", "rankfn", (posd,))
-        rep.check(ok, "TPO.order", site, "layer numbering", "every world of every layer gets rank_function(position of its layer), layers numbered from 0 in order; nothing else is in the result",
-                  extracted=det, required="{world: rank_function(i) for i, layer in enumerate(tpo) for world in layer}", function=site)
-    rep.floor("tpo2ranks paths", m, 1)
+    for ti, tpo in enumerate(tpos):
+        for as_set in (True, False):
+            def setup_t(I, tpo=tpo, as_set=as_set):
+                layers = [I.alloc(HList([("one", Const(w)) for w in L], is_set=as_set)) for L in tpo]
+                return [I.alloc(HList([("one", L) for L in layers])), Sym("rankfn")], {}
+
+            paths = ex.run(qual, setup_t, summaries=_summ(), key=f"t2r-{ti}-{as_set}")
+            slot = f"layers {tpo}" + ("" if as_set else " (as lists)")
+            if len(paths) != 1:
+                raise AnalysisError(f"{site}: {len(paths)} paths on a concrete total preorder {tpo}")
+            p = paths[0]
+            m += 1
+            if p.outcome[0] != "return":
+                rep.violation("TPO.order", site, slot, "every total preorder is converted", extracted=f"{p.outcome[0]} {p.outcome[1]!r}"[:80], required="return", function=site)
+                continue
+            d = p.state.heap.get(p.outcome[1].oid) if isinstance(p.outcome[1], Ref) else None
+            if not (isinstance(d, HDict) and not d.each and not d.sym):
+                raise AnalysisError(f"{site}: result is not a mapping the analysis can read: {p.outcome[1]!r}")
+            want = {w: ("call", "rankfn", (("c", i),)) for i, L in enumerate(tpo) for w in L}
+            got = {k: (v.label if isinstance(v, Sym) else repr(v)) for k, v in d.entries.items()}
+            rep.check(got == want, "TPO.order", site, slot, "every world of every layer gets rank_function(position of its layer), layers numbered from 0 in order; nothing else is in the result",
+                      extracted=str({k: F.show_desc(v) if isinstance(v, tuple) else v for k, v in got.items()})[:260], required="{world: rank_function(i) for i, layer in enumerate(tpo) for world in layer}", function=site)
+    rep.floor("tpo2ranks evaluations", m, 12)
 
 
 # ----------------------------------------------------------------------------------------------
@@ -794,9 +923,10 @@ def zrank_init(rep, ex: Explorer, cls=ZP):
                     continue  # rejected input (unknown variables, wrong type): raised before any partition
                 c = cons[-1]
                 pf = decided(p, ("partfalse", ("part", c.pid)))
-                mode_ok = isinstance(c.weakly, Const) and bool(c.weakly.value) == bool(want_mode)
+                c_weakly = value_on_path(p, c.weakly)
+                mode_ok = isinstance(c_weakly, Const) and bool(c_weakly.value) == bool(want_mode)
                 rep.check(mode_ok, "FACT.shape" if with_facts else "ZRANK.recursion", f"{site}:{c.node.lineno}", f"partition mode (extended={ext.value}, facts={with_facts})",
-                          "extended mode as requested; when unspecified: extended with facts, strict without", extracted=repr(c.weakly), required=str(bool(want_mode)), function=site)
+                          "extended mode as requested; when unspecified: extended with facts, strict without", extracted=repr(c_weakly), required=str(bool(want_mode)), function=site)
                 # the caller's belief base is input only: later rankings of the same base see it unchanged
                 bbo = p.state.heap.get(held["bb"].oid) if isinstance(held.get("bb"), Ref) else None
                 cd0 = bbo.attrs.get("conditionals") if isinstance(bbo, HObj) else None
@@ -814,6 +944,7 @@ def zrank_init(rep, ex: Explorer, cls=ZP):
                     for dv in dg[:1]:
                         b_ = {dparams[i]: v for i, v in enumerate(dv.args) if i < len(dparams)}
                         b_.update(dv.kwargs)
+                        b_ = {k_: value_on_path(p, v_) for k_, v_ in b_.items()}
                         bbv = b_.get("belief_base")
                         bo = p.state.heap.get(bbv.oid) if isinstance(bbv, Ref) else None
                         cd_ = p.state.heap.get(bo.attrs["conditionals"].oid) if isinstance(bo, HObj) and isinstance(bo.attrs.get("conditionals"), Ref) else None
@@ -1025,7 +1156,10 @@ def fact_builder_sibling(rep, ex: Explorer):
                         # and the running value is the key of the entry stored for that fact
                         stored = [ev2 for ev2, Q2 in iter_events(p.events) if ev2.kind == "dict.set" and Q2 and Q2[-1][0].id == ev.loop]
                         okk = okk and bool(stored) and all((isinstance(e2.key, Sym) and e2.key.label == carried) or (isinstance(e2.key, LinV) and e2.key.lin == atpos) for e2 in stored)
-        rep.check(okk, "FACT.shape", site, "fact keys", "keys start_index+1, +2, ...", extracted=str(okk), required="running key from start_index+1", function=site)
+        if not okk and isinstance(d, HDict) and d.each and not d.entries:
+            # read off the result: the entry of the fact at position i is stored under start_index + 1 + i
+            okk = all(isinstance(e[4], LinV) and e[4].lin == F.lin_add(F.lin_term(("pos", e[1], FACTS)), F.lin_add(F.lin_term("start"), F.lin_const(1))) and e[2] == FACTS for e in d.each)
+        rep.check(okk, "FACT.shape", site, "fact keys", "keys start_index+1, +2, ...", extracted=str(okk) if okk else (", ".join(repr(e[4]) for e in d.each)[:160] if isinstance(d, HDict) else "?"), required="running key from start_index+1", function=site)
     rep.floor("build_fact_conditionals paths", n, 1)
     # augment: the builder is called with start index = highest key of the base (0 for an empty base); the result holds
     # the base's conditionals and the fact conditionals; the base handed in is left as it was
@@ -1251,10 +1385,6 @@ def save_restore(rep, ex: Explorer):
             for d in dumps:
                 pass
     rep.floor("save_ocf exits", n, 4)
-    # the dumped object has the attributes detached at dump time
-    fi = ex.prog.function(qual)
-    src = ast.unparse(fi.node)
-    rep.check("finally" in src, "SAVE.restore", site, "restoration in finally", "restoration is attached to every exit (finally)", extracted="finally" if "finally" in src else "none", required="try/finally", function=site)
 
 
 def impacts_keys(rep, ex: Explorer):
@@ -1365,6 +1495,13 @@ def impacts_accept(rep, ex: Explorer):
 
     def classify(key, val):
         k = key[0]
+        # quantifier duality: ∃x ¬P(x) is the negation of ∀x P(x) (and the other way round)
+        if k in ("forall", "exists") and len(key) == 5 and isinstance(key[4], tuple) and key[4][:1] == ("not",) and len(key[4]) == 2:
+            return classify(("exists" if k == "forall" else "forall",) + tuple(key[1:4]) + (key[4][1],), not val)
+        if k == "forall" and key[2] == IMP and key[4][:2] == ("cmp", ">=") and key[4][2] == ("lin", (((("impval", key[1]), 1),), 0)) and key[4][3] == ("c", 0):
+            return "a negative value" if val is False else None
+        if k == "exists" and key[2] == IMP and key[4][:1] == ("isinstance",) and "int" in repr(key[4]):
+            return None if val is True else "other:" + show_pred(key)[:120]
         if k == "forall" and key[2] == IMP and key[4][:1] == ("isinstance",) and "int" in repr(key[4]):
             return "not all integers" if val is False else None
         if k == "cmp" and key[1] == "==" and isinstance(key[2], tuple) and key[2][0] == "lin":
